@@ -201,7 +201,7 @@ func checkC07(c *Ctx) {
 						}
 					}
 				}
-				c.check(guarded, "C07-NAN", fnName(f), "float operand "+base.Name()+" of "+calleeName(in.(*ssa.Call).Common()), in.Pos(),
+				c.check(guarded, "C07-NAN", fnName(f), "float operand "+valueOrigin(base, 0)+" of "+calleeName(in.(*ssa.Call).Common()), in.Pos(),
 					"an IsNaN test of this operand dominates the sign computation",
 					"a float operand reaches the sign-of-difference without an IsNaN test: NaN compares as equal (NaN-x is NaN, whose sign is reported as 0)")
 			}
@@ -971,10 +971,11 @@ func (c *Ctx) checkNoIdentityShortcut() {
 }
 
 // checkIntegerResultWidth: C07-WRAP.
-//  (a) a signed integer quotient is guarded against the one pair that overflows (min / -1);
-//  (b) an integer result is not obtained by converting math.Pow's float64 back, except on a
-//      path that has compared the exponent with 0 (negative exponents);
-//  (c) a 64-bit result is narrowed to a char only behind a test that it survives the round trip.
+//
+//	(a) a signed integer quotient is guarded against the one pair that overflows (min / -1);
+//	(b) an integer result is not obtained by converting math.Pow's float64 back, except on a
+//	    path that has compared the exponent with 0 (negative exponents);
+//	(c) a 64-bit result is narrowed to a char only behind a test that it survives the round trip.
 func (c *Ctx) checkIntegerResultWidth(scope []*ssa.Function) {
 	nq, np, nn := 0, 0, 0
 	for _, f := range scope {
